@@ -437,6 +437,8 @@ type FnResult struct {
 	Bounded     []string
 	HasContract bool
 	Props       []string
+	AlsoProps   []string // properties named by single postconditions ([label also Cxx])
+	UsedCallees []string // functions under contract called modularly (their postconditions are relied upon)
 }
 
 func (eng *Engine) newFnCtx(fn *ssa.Function, fc *FuncContract) *FnCtx {
@@ -457,6 +459,9 @@ func (eng *Engine) verifyFunc(fn *ssa.Function) (res *FnResult) {
 	res = &FnResult{Name: eng.relNameQ(fn), Fn: fn, HasContract: fc != nil}
 	if fc != nil {
 		res.Props = fc.Props
+		for _, c := range fc.Ensures {
+			res.AlsoProps = append(res.AlsoProps, c.Props...)
+		}
 	}
 	defer func() {
 		if r := recover(); r != nil {
@@ -470,6 +475,7 @@ func (eng *Engine) verifyFunc(fn *ssa.Function) (res *FnResult) {
 		res.Assumptions = sortedKeys(fx.assump)
 		res.Trusted = sortedKeys(fx.trusted)
 		res.Uncontr = sortedKeys(fx.uncontr)
+		res.UsedCallees = sortedKeys(fx.usedCallees)
 		res.Bounded = sortedKeys(fx.bounded)
 	}()
 	if fc != nil && fc.Trusted {
